@@ -18,6 +18,7 @@ from . import core
 from .core import SymBool, SymInt, Unmodelled
 
 EPS = fractions.Fraction(1, 2 ** 53)
+MARGIN = z3.RealVal('1/1000000')      # witnesses of real comparisons keep this distance from the boundary
 
 
 def _ex():
@@ -105,7 +106,7 @@ class SymReal:
         if oe is None:
             return NotImplemented
         num, den = (oe, self.e) if swap else (self.e, oe)
-        if bool(SymBool(den == 0)):
+        if bool(SymBool(den == 0, robust=(None, z3.Or(den <= -MARGIN, den >= MARGIN)))):
             raise ZeroDivisionError('float division by zero')
         return SymReal(_round(num / den))
 
@@ -124,30 +125,34 @@ class SymReal:
     def __abs__(self):
         return SymReal(z3.If(self.e >= 0, self.e, -self.e))
 
-    def _cmp(self, o, f):
+    def _cmp(self, o, f, kind):
         oe = to_expr(o)
         if oe is None:
             return NotImplemented
-        return SymBool(f(self.e, oe))
+        d = self.e - oe
+        lt, gt = d <= -MARGIN, d >= MARGIN
+        robust = {'<': (lt, gt), '<=': (lt, gt), '>': (gt, lt), '>=': (gt, lt),
+                  '==': (None, z3.Or(lt, gt)), '!=': (z3.Or(lt, gt), None)}[kind]
+        return SymBool(f(self.e, oe), robust=robust)
 
     def __lt__(self, o):
-        return self._cmp(o, lambda a, b: a < b)
+        return self._cmp(o, lambda a, b: a < b, '<')
 
     def __le__(self, o):
-        return self._cmp(o, lambda a, b: a <= b)
+        return self._cmp(o, lambda a, b: a <= b, '<=')
 
     def __gt__(self, o):
-        return self._cmp(o, lambda a, b: a > b)
+        return self._cmp(o, lambda a, b: a > b, '>')
 
     def __ge__(self, o):
-        return self._cmp(o, lambda a, b: a >= b)
+        return self._cmp(o, lambda a, b: a >= b, '>=')
 
     def __eq__(self, o):
-        r = self._cmp(o, lambda a, b: a == b)
+        r = self._cmp(o, lambda a, b: a == b, '==')
         return False if r is NotImplemented else r
 
     def __ne__(self, o):
-        r = self._cmp(o, lambda a, b: a != b)
+        r = self._cmp(o, lambda a, b: a != b, '!=')
         return True if r is NotImplemented else r
 
     __hash__ = None
